@@ -15,6 +15,18 @@ KINDS = ["ValueError", "KeyError", "ZeroDivisionError", "TypeError", "NameError"
 #  ("tryre", a, catch, b)   try: a / except <catch>: b; raise      (b is evaluated for the calls it makes)
 #  ("tryfin", a, b)         try: a / finally: b
 #  the blocks b of tryre / tryfin contain no try of their own (the Lean model's `blocksSimple`)
+#  ("callk", cid, [pos], [(i, e), ...])   cid(pos..., a<i>=e, ...): keyword arguments (any order, any parameter index -
+#                           an index the callee does not have is an unexpected keyword) after the positional ones;
+#                           ("call", …) and ("callk", …) may leave out parameters that have default values (cells
+#                           description key "defaults": values of the LAST parameters).  All arguments are evaluated
+#                           in source order, then bound (inspect.Signature.bind + apply_defaults)
+#  ("via", kind, e)         e, evaluated inside an EXTRA plain Python frame that belongs to the formula: kind
+#                           "gen" generator expression, "comp" list comprehension (a frame before Python 3.12),
+#                           "lam" a lambda called on the spot, "map" a lambda handed to map(), "sorted" a lambda handed
+#                           to sorted(key=), "def" a nested helper function.  The value, the calls, their order and the
+#                           errors are those of e (the Lean driver's reader drops the wrapper: the model has no frames);
+#                           what differs is the Python traceback - one more frame between the formula's own frame and
+#                           the next cells.  All kinds but "def" need an e that is one expression (`lambda_ok`).
 
 def sexp(e):
     t = e[0]
@@ -30,12 +42,17 @@ def sexp(e):
         return "(if %s %s %s)" % (sexp(e[1]), sexp(e[2]), sexp(e[3]))
     if t == "call":
         return "(call %d %s)" % (e[1], " ".join(sexp(a) for a in e[2]))
+    if t == "callk":
+        return "(callk %d %d %s %s)" % (e[1], len(e[2]), ",".join(str(i) for i, _ in e[3]) or "-",
+                                        " ".join(sexp(a) for a in list(e[2]) + [a for _, a in e[3]]))
     if t == "try":
         return "(try %s %s %s)" % (sexp(e[1]), e[2], sexp(e[3]))
     if t == "tryre":
         return "(tryre %s %s %s)" % (sexp(e[1]), e[2], sexp(e[3]))
     if t == "tryfin":
         return "(tryfin %s %s)" % (sexp(e[1]), sexp(e[2]))
+    if t == "via":
+        return "(via %s %s)" % (e[1], sexp(e[2]))
     raise ValueError(e)
 
 
@@ -75,6 +92,21 @@ def parse_sexp(text):
             b = one()
             pos[0] += 1
             return (head, a, c, b)
+        if head == "callk":
+            cid, npos, kws = int(toks[pos[0]]), int(toks[pos[0] + 1]), toks[pos[0] + 2]
+            pos[0] += 3
+            kws = [] if kws == "-" else [int(x) for x in kws.split(",")]
+            args = []
+            while toks[pos[0]] != ")":
+                args.append(one())
+            pos[0] += 1
+            return ("callk", cid, args[:npos], list(zip(kws, args[npos:])))
+        if head == "via":
+            kind = toks[pos[0]]
+            pos[0] += 1
+            a = one()
+            pos[0] += 1
+            return ("via", kind, a)
         if head == "call":
             cid = int(toks[pos[0]])
             pos[0] += 1
@@ -103,10 +135,20 @@ def subexprs(e):
     elif t == "call":
         for a in e[2]:
             yield from subexprs(a)
+    elif t == "callk":
+        for a in e[2]:
+            yield from subexprs(a)
+        for _, a in e[3]:
+            yield from subexprs(a)
     elif t in ("try", "tryre"):
         yield from subexprs(e[1])
         yield from subexprs(e[3])
+    elif t == "via":
+        yield from subexprs(e[2])
 
+
+VIA_KINDS = ("gen", "comp", "lam", "map", "sorted", "def")
+VIA_EXPR_KINDS = ("gen", "comp", "lam", "map")      # rendered as ONE expression (usable inside a lambda formula too)
 
 TRY_KINDS = ("try", "tryre", "tryfin")
 
@@ -125,7 +167,30 @@ def lambda_ok(e):
     for x in subexprs(e):
         if x[0] in TRY_KINDS or (x[0] == "raise" and x[1] not in Renderer.LAMBDA_RAISE):
             return False
+        if x[0] == "via" and x[1] not in VIA_EXPR_KINDS:
+            return False
     return True
+
+
+def _pyval(v):
+    return "None" if v is None else "(%d)" % v if v < 0 else "%d" % v
+
+
+def py_bind(nparams, defaults, pos, kw):
+    """The element a spelling denotes, by Python's own binder on a signature built here (independent of modelx):
+    `nparams` positional-or-keyword parameters a0.., the last len(defaults) with default values; pos: positional
+    values, kw: {parameter index: value}.  -> tuple, or None where Python raises TypeError."""
+    import inspect
+    d0 = nparams - len(defaults)
+    sig = inspect.Signature([
+        inspect.Parameter("a%d" % i, inspect.Parameter.POSITIONAL_OR_KEYWORD,
+                          **({"default": defaults[i - d0]} if i >= d0 else {})) for i in range(nparams)])
+    try:
+        b = sig.bind(*pos, **{"a%d" % i: v for i, v in kw.items()})
+    except TypeError:
+        return None
+    b.apply_defaults()
+    return tuple(b.arguments.values())
 
 
 class Renderer:
@@ -142,19 +207,25 @@ class Renderer:
         self.log_name = log_name
         self.call_wrap = call_wrap
 
-    def render(self, fname, cid, nparams, body, lam=False, enforce_none=False):
+    def param_list(self, nparams, defaults):
+        """`a0, a1=5`: the last len(defaults) parameters have default values"""
+        params = ["a%d" % i for i in range(nparams)]
+        d0 = nparams - len(defaults)
+        return params, ", ".join(p if i < d0 else "%s=%s" % (p, _pyval(defaults[i - d0])) for i, p in enumerate(params))
+
+    def render(self, fname, cid, nparams, body, lam=False, enforce_none=False, defaults=()):
         """enforce_none: the def itself raises NoneReturnedError when it is about to return None (used by the
         all-uncached 'pure recomputation' replica for cells that are cached in the program and do not allow None:
         modelx checks the None rule only when it stores a value, i.e. for cached cells)"""
         if lam and not enforce_none:
-            return self.render_lambda(fname, cid, nparams, body)
+            return self.render_lambda(fname, cid, nparams, body, defaults)
         self.lines = []
         self.n = 0
         self.calls = {}
-        params = ["a%d" % i for i in range(nparams)]
+        params, plist = self.param_list(nparams, defaults)
         self.params = params
         self.cid = cid
-        self.lines.append("def %s(%s):" % (fname, ", ".join(params)))
+        self.lines.append("def %s(%s):" % (fname, plist))
         if self.log_name:
             self.lines.append("    %s(%d, (%s))" % (self.log_name, cid, "".join(p + ", " for p in params)))
         atom = self.emit(body, 1)
@@ -166,18 +237,18 @@ class Renderer:
     # natural expressions that raise the kinds a `raise` statement raises in a `def` (a lambda has no statements)
     LAMBDA_RAISE = {0: "int('k0')", 1: "{}['k1']", 2: "(1 // 0)", 3: "(None + 1)", 4: "undefined_k4", 5: "None.k5"}
 
-    def render_lambda(self, fname, cid, nparams, body):
+    def render_lambda(self, fname, cid, nparams, body, defaults=()):
         """The same body as ONE lambda expression (formula given as lambda source).  Only the expression
         subset can be rendered (no `try`, no KeyboardInterrupt); sub-expressions are evaluated by Python in the
         order the A-normal form spells out: callee name, arguments left to right, call; left operand before
         right; condition before branch.  Every call is on line 1."""
-        self.params = ["a%d" % i for i in range(nparams)]
+        self.params, plist = self.param_list(nparams, defaults)
         self.cid = cid
         self.calls = {}
         ex = self.lexpr(body)
         if self.log_name:
             ex = "(%s(%d, (%s)), %s)[1]" % (self.log_name, cid, "".join(p + ", " for p in self.params), ex)
-        return "lambda %s: %s\n" % (", ".join(self.params), ex), dict(self.calls)
+        return "lambda %s: %s\n" % (plist, ex), dict(self.calls)
 
     def lexpr(self, e):
         t = e[0]
@@ -202,6 +273,13 @@ class Renderer:
                     self.call_wrap, self.cid, "".join(p + ", " for p in self.params), e[1], f,
                     "".join(a + ", " for a in args))
             return "%s(%s)" % (f, ", ".join(args))
+        if t == "callk":
+            if self.call_wrap:
+                raise ValueError("keyword calls are not rendered through the call recorder")
+            f = self.names["cell"](e[1])
+            args = [self.lexpr(a) for a in e[2]] + ["a%d=%s" % (i, self.lexpr(a)) for i, a in e[3]]
+            self.calls[1] = e[1]
+            return "%s(%s)" % (f, ", ".join(args))
         if t == "rn":
             return self.names["rn"](e[1])
         if t == "ra":
@@ -209,7 +287,23 @@ class Renderer:
         if t == "raise" and e[1] in self.LAMBDA_RAISE:
             self.calls[1] = "raise"
             return self.LAMBDA_RAISE[e[1]]
+        if t == "via" and e[1] in VIA_EXPR_KINDS:
+            return self.via_expr(e[1], self.lexpr(e[2]))
         raise ValueError("not renderable as a lambda: %r" % (e,))
+
+    def via_expr(self, kind, inner):
+        """`inner` (python source of one expression) evaluated once, in a frame of its own, as one expression"""
+        self.n_via = getattr(self, "n_via", 0) + 1
+        i = "_i%d" % self.n_via
+        if kind == "gen":
+            return "next(%s for %s in (0,))" % (inner, i)
+        if kind == "comp":
+            return "[%s for %s in (0,)][0]" % (inner, i)
+        if kind == "lam":
+            return "(lambda: %s)()" % inner
+        if kind == "map":
+            return "list(map(lambda %s: %s, (0,)))[0]" % (i, inner)
+        raise ValueError(kind)
 
     def tmp(self):
         self.n += 1
@@ -267,6 +361,16 @@ class Renderer:
                 ln = self.put(ind, "%s = %s(%s)" % (v, f, ", ".join(args)))
             self.calls[ln] = e[1]
             return v
+        if t == "callk":
+            if self.call_wrap:
+                raise ValueError("keyword calls are not rendered through the call recorder")
+            f = self.tmp()
+            self.put(ind, "%s = %s" % (f, self.names["cell"](e[1])))
+            args = [self.emit(a, ind) for a in e[2]] + ["a%d=%s" % (i, self.emit(a, ind)) for i, a in e[3]]
+            v = self.tmp()
+            ln = self.put(ind, "%s = %s(%s)" % (v, f, ", ".join(args)))
+            self.calls[ln] = e[1]
+            return v
         if t == "rn":
             v = self.tmp()
             self.put(ind, "%s = %s" % (v, self.names["rn"](e[1])))
@@ -306,6 +410,26 @@ class Renderer:
             self.emit(e[3], ind + 1)
             self.put(ind + 1, "raise")
             return v
+        if t == "via":
+            kind = e[1]
+            v = self.tmp()
+            if kind == "def":
+                # a nested helper: the statements of e, in a frame of their own
+                h = "_h%s" % v[1:]
+                self.put(ind, "def %s():" % h)
+                a = self.emit(e[2], ind + 1)
+                self.put(ind + 1, "return %s" % a)
+                self.put(ind, "%s = %s()" % (v, h))
+                return v
+            if kind == "sorted":
+                # the callee is evaluated by the key function sorted() calls
+                h = "_h%s" % v[1:]
+                self.put(ind, "%s = []" % h)
+                self.put(ind, "sorted((0,), key=lambda _k: %s.append(%s))" % (h, self.lexpr(e[2])))
+                self.put(ind, "%s = %s[0]" % (v, h))
+                return v
+            self.put(ind, "%s = %s" % (v, self.via_expr(kind, self.lexpr(e[2]))))
+            return v
         if t == "tryfin":
             v = self.tmp()
             self.put(ind, "try:")
@@ -327,7 +451,8 @@ class Gen:
     the first argument decremented under the guard 0 < p0 (so every chain is finite)."""
 
     def __init__(self, rng, n_rn=2, n_ra=2, catch_all_p=0.15, raise_p=0.06, none_p=0.04,
-                 fail_cell_p=0.0, handled_seq_p=0.0, lam_p=0.0, space_p=0.0, block_p=0.0):
+                 fail_cell_p=0.0, handled_seq_p=0.0, lam_p=0.0, space_p=0.0, block_p=0.0, via_p=0.0,
+                 default_p=0.0):
         self.rng = rng
         self.n_rn, self.n_ra = n_rn, n_ra
         self.catch_all_p, self.raise_p, self.none_p = catch_all_p, raise_p, none_p
@@ -344,6 +469,17 @@ class Gen:
         #  block_p        a sub-expression `try: a except K: <calls>; raise` or `try: a finally: <calls>` - cells
         #                 evaluated while an exception passes through the formula (or on the way out of a value)
         self.block_p = block_p
+        #  via_p          a call is made inside an extra plain Python frame of the formula (generator expression,
+        #                 comprehension, lambda called / handed to map or sorted, nested def): same behaviour, one more
+        #                 frame in the Python traceback
+        self.via_p = via_p
+        #  default_p      a cells with parameters gets default values for its last 1..n parameters (description key
+        #                 "defaults"); calls from formulas and requests from outside then leave out any subset of them
+        #                 and spell arguments positionally, by keyword (any order), mixed - sometimes so that the
+        #                 spelling does not bind (unexpected keyword, two values for one parameter, a required
+        #                 parameter left out)
+        self.default_p = default_p
+        self.defaults = {}
         self.cur_space = 0
         self.no_try = False     # set per program: no formula handles a failure (the regime of the C02 theorems)
         self.failing = []
@@ -371,22 +507,88 @@ class Gen:
             return ("none",)
         return ("lit", self.rng.randint(0, 3))
 
+    def spelling(self, n, defaults, need0=False):
+        """which parameters are supplied and how: -> (number of positional arguments, [parameter index per keyword
+        argument, in source order], one more positional argument than that)"""
+        rng = self.rng
+        req = n - len(defaults)
+        supplied = [i for i in range(n) if i < req or rng.random() < 0.5 or (need0 and i == 0)]
+        maxpos = 0
+        while maxpos in supplied:
+            maxpos += 1
+        npos = maxpos if rng.random() < 0.6 else rng.randint(0, maxpos)
+        kws = [i for i in supplied if i >= npos]
+        if rng.random() < 0.3:
+            rng.shuffle(kws)
+        r = rng.random()
+        if r < 0.02:
+            kws.append(n + rng.randint(0, 1))               # a keyword the callee does not have
+        elif r < 0.04 and npos:
+            kws.append(rng.randrange(npos))                 # a second value for a positional parameter
+        elif r < 0.05 and req:
+            x = rng.randrange(req)                          # a required parameter left out
+            if x >= npos:
+                kws = [i for i in kws if i != x]
+            elif x == npos - 1 and not (need0 and x == 0):
+                npos -= 1
+        elif r < 0.06 and not kws:
+            return npos, kws, True                          # one positional argument too many
+        return npos, kws, False
+
+    def mkcall(self, j, arities, argfn, first=None):
+        """a call of cells j: argfn() makes one argument expression; first: the expression for parameter 0 (the
+        decremented counter of a self recursion)"""
+        n = arities[j]
+        if not self.default_p:
+            k = n - 1 if (first is not None and n) else n
+            return ("call", j, ([first] if (first is not None and n) else []) + [argfn() for _ in range(k)])
+        npos, kws, extra = self.spelling(n, self.defaults.get(j, []), need0=first is not None and n > 0)
+
+        def arg(i):
+            return first if (i == 0 and first is not None) else argfn()
+        pos = [arg(i) for i in range(npos)]
+        if extra and not kws:
+            pos.append(argfn())
+        kw = [(i, arg(i)) for i in kws]
+        return ("callk", j, pos, kw) if kw else ("call", j, pos)
+
+    def spelled_args(self, nparams, defaults, positional=False):
+        """the argument tokens of a request from outside: values, then `k<i>=<value>`; positional=True: a subscript
+        (no keywords), possibly shorter than the parameter list"""
+        if not self.default_p:
+            return self.args(nparams)
+        if positional:
+            req = nparams - len(defaults)
+            n = self.rng.randint(req, nparams)
+            if self.rng.random() < 0.04:
+                n = max(0, n + self.rng.choice([-1, 1]))
+            return self.args(n)
+        npos, kws, extra = self.spelling(nparams, defaults)
+        vals = self.args(npos + len(kws) + (1 if extra and not kws else 0))
+        return vals[:len(vals) - len(kws)] + ["k%d=%s" % (i, v) for i, v in zip(kws, vals[len(vals) - len(kws):])]
+
+    def maybe_via(self, e):
+        if not self.via_p or self.rng.random() >= self.via_p:
+            return e
+        kinds = VIA_KINDS if lambda_ok(e) else ("def",)
+        return ("via", self.rng.choice(kinds), e)
+
     def block(self, cid, nparams, arities, depth):
         """except-reraise / finally around a call (often of a cells that fails) or any expression; the block calls
         one or two lower cells with simple arguments"""
         rng = self.rng
         if self.failing and rng.random() < 0.55:
             j = rng.choice(self.failing)
-            a = ("call", j, [self.leaf(nparams) for _ in range(arities[j])])
+            a = self.mkcall(j, arities, lambda: self.leaf(nparams))
         elif rng.random() < 0.5:
             j = rng.randrange(cid)
-            a = ("call", j, [self.leaf(nparams) for _ in range(arities[j])])
+            a = self.mkcall(j, arities, lambda: self.leaf(nparams))
         else:
             a = self.expr(cid, nparams, arities, depth - 1)
         calls = []
         for _ in range(rng.choice([1, 1, 1, 2])):
             j = rng.randrange(cid)
-            calls.append(("call", j, [self.leaf(nparams) for _ in range(arities[j])]))
+            calls.append(self.mkcall(j, arities, lambda: self.leaf(nparams)))
         b = calls[0] if len(calls) == 1 else ("add", calls[0], calls[1])
         if rng.random() < 0.4:
             return ("tryfin", a, b)
@@ -407,10 +609,12 @@ class Gen:
                     self.expr(cid, nparams, arities, depth - 1))
         if r < 0.80 and cid > 0:
             j = self.rng.randrange(cid)
+            if self.default_p:
+                return self.maybe_via(self.mkcall(j, arities, lambda: self.expr(cid, nparams, arities, depth - 2)))
             ar = arities[j]
             if self.rng.random() < 0.04:
                 ar = max(0, ar + self.rng.choice([-1, 1]))       # wrong arity: TypeError in the caller
-            return ("call", j, [self.expr(cid, nparams, arities, depth - 2) for _ in range(ar)])
+            return self.maybe_via(("call", j, [self.expr(cid, nparams, arities, depth - 2) for _ in range(ar)]))
         if r < 0.80 + self.raise_p:
             return ("raise", self.rng.choice([0, 1, 2, 0, 1, 2, 6]))
         if r < 0.95 and self.no_try:
@@ -424,8 +628,7 @@ class Gen:
         e = self.expr(cid, nparams, arities, self.rng.randint(1, 4))
         if nparams and self.rng.random() < 0.45:
             # self recursion on the first parameter
-            rec_args = [("sub", ("p", 0), ("lit", 1))] + [self.leaf(nparams) for _ in range(nparams - 1)]
-            rec = ("call", cid, rec_args)
+            rec = self.maybe_via(self.mkcall(cid, arities, lambda: self.leaf(nparams), first=("sub", ("p", 0), ("lit", 1))))
             step = self.rng.choice([
                 ("add", rec, self.leaf(nparams)),
                 ("add", rec, e),
@@ -443,12 +646,13 @@ class Gen:
         r = self.rng.random()
         if self.failing and r < 0.4:
             j = self.rng.choice(self.failing)
-            call = ("call", j, [self.leaf(nparams) for _ in range(arities[j])])
+            call = self.maybe_via(self.mkcall(j, arities, lambda: self.leaf(nparams)))
             return call if self.rng.random() < 0.6 else ("add", call, self.leaf(nparams))
         if nparams and r < 0.6:
-            rec = ("call", cid, [("sub", ("p", 0), ("lit", 1))] + [self.leaf(nparams) for _ in range(nparams - 1)])
-            return ("if", ("lt", ("lit", 0), ("p", 0)), rec, ("raise", kind))
-        return ("raise", kind)
+            rec = self.maybe_via(self.mkcall(cid, arities, lambda: self.leaf(nparams),
+                                             first=("sub", ("p", 0), ("lit", 1))))
+            return ("if", ("lt", ("lit", 0), ("p", 0)), rec, self.maybe_via(("raise", kind)))
+        return self.maybe_via(("raise", kind))
 
     def handled_then(self, cid, nparams, arities, rest):
         """(try: call … except …) k times, then `rest`"""
@@ -458,7 +662,7 @@ class Gen:
                 j = self.rng.choice(self.failing)
             else:
                 j = self.rng.randrange(cid)
-            call = ("call", j, [self.leaf(nparams) for _ in range(arities[j])])
+            call = self.mkcall(j, arities, lambda: self.leaf(nparams))
             c = "all" if self.rng.random() < 0.5 else self.rng.choice(["k0", "k1", "k2", "k3"])
             tries.append(("try", call, c, self.leaf(nparams)))
         for t in reversed(tries):
@@ -468,8 +672,16 @@ class Gen:
     def program(self, ncells):
         arities, cells = [], []
         for cid in range(ncells):
-            nparams = self.rng.choice([0, 1, 1, 1, 2])
+            nparams = self.rng.choice([0, 1, 1, 2, 2, 3] if self.default_p else [0, 1, 1, 1, 2])
             arities.append(nparams)
+            dflt = None
+            if self.default_p and nparams and self.rng.random() < self.default_p:
+                # mostly two or more defaulted parameters, with values that differ from each other
+                nd = self.rng.choice([nparams, nparams, max(1, nparams - 1), self.rng.randint(1, nparams)])
+                dflt = self.rng.sample(range(0, 7), nd)
+                if self.rng.random() < 0.08:
+                    dflt[self.rng.randrange(nd)] = None
+                self.defaults[cid] = dflt
             if self.space_p:
                 self.cur_space = 1 if self.rng.random() < self.space_p else 0
             cells.append({
@@ -480,6 +692,8 @@ class Gen:
                 "body": self.body(cid, nparams, arities),
             })
             c = cells[-1]
+            if dflt is not None:
+                c["defaults"] = dflt
             if self.space_p:
                 c["space"] = self.cur_space
             if self.fail_cell_p and self.rng.random() < self.fail_cell_p:
